@@ -53,6 +53,10 @@ CHECKS = {
           "Each mutant is loaded with dmntk_model::parse, built with ModelEvaluator::new and every decision, knowledge model and decision service it declares is invoked with three input contexts, in a worker process that announces the case index in a memory-mapped file before running it under catch_unwind; a worker that panics, dies by a signal or abort (stack overflow), or makes no progress within the stall limit is attributed to that case and restarted behind it. Verdict: no mutant crashes or hangs, in either profile.",
           "Values are not judged. Faults beyond pairs on large models, and multi-byte corruptions, are outside the bound; the stall limit is 10 s (quick) / 30 s (thorough); worker address space is limited to 4 GiB; the main-thread stack is the default 8 MiB. A model whose unmutated text already crashes (listed finding N_0088) is reported once and not mutated.",
           "DESIGN.md §4 C12"),
+  "C17": ("explicit-state search over the real Workspace to closure: breadth-first from the empty workspace, every operation of the alphabet applied in every reached state (32 operations quick / 47 thorough: add and replace of 7 / 10 models that share namespaces and names pairwise - identical ids with other content, same namespace other name, other namespace same name, crossing, disjoint, one that fails to build and one with its ids that builds -, remove of every (namespace, name) pair, clear, deploy); states are deduplicated by a canonical form holding the whole state (snapshot of the stored list, both lookup maps with their referents and the deployed evaluator keys, read through the `verif` feature hook, plus the identity of the stored contents), so histories of every length are covered",
+          "In every transition: the operation's result against a reference registry (add succeeds iff no stored model has its namespace or name), the consistency invariants of the collections (lookups by name and by namespace describe exactly the stored list; no stale reservation), the stored list, the deployed set, and the evaluation of every model name (possible exactly for the models present at the last deploy that built, nothing modified since; a failing model does not block the others). Each state is reproduced by replaying its history on a fresh workspace.",
+          "Trusts the reference registry in engines/c17.rs. Which of two partially matching models a remove / replace drops is not prescribed (the implementation's list is adopted, the invariants still apply); every remove counts as a modification. A state reached by a violating transition is reported and not expanded. Loading from a directory is not covered.",
+          "DESIGN.md §4 C17"),
   "C19": ("bounded exhaustive enumeration through a renderer that is the inverse of the recogniser (drawing.rs; calibrated at every run: each shipped valid drawing is recognised, re-rendered from the recognised table and recognised again): source tables with inputs 1..3 (thorough 1..5) x outputs 1..3 x annotations 0..2 x rule counts {1,2,4} (thorough 1..8) x 11 hit policy markers x both orientations x information item name x values row x output label x 9 cell-line patterns (single line; a two-line cell in each of the 8 cell classes) x 4 drawing styles (column widths; name box ending inside a cell, on a column boundary, at the right edge; merged or separate hit policy cell); plus, crash-isolated in two build profiles, every single-character corruption (delete, swap with next, replace by each of 16 characters incl. 13 box-drawing characters) at every position of 14 (quick) / 124 (thorough) drawings",
           "Each drawing goes through dmntk_recognizer::build and the resulting DecisionTable is compared field by field with the source (hit policy, aggregator, orientation, information item name, input expressions and values, output label, names and values, annotations, every rule entry in order; cell texts modulo white space). The recognised table, the table built from the source struct and the table loaded from generated DMN XML are evaluated on every presence/value assignment of the inputs and must agree. A corrupted drawing must be recognised or rejected: a panic, death or hang of the worker is attributed to the case.",
           "Trusts the renderer's reading of the drawing conventions (bound to the shipped drawings by the calibration step). Cell texts contain no box-drawing characters. Crosstab drawings are not supported by the code base and are outside the property. Corruptions of more than one character are outside the bound.",
@@ -106,7 +110,7 @@ def main():
             "guard": "cargo feature `verif` of dmntk-workspace (cfg(feature = \"verif\"))",
             "enable": "the harness depends on dmntk-workspace with features = [\"verif\"]; nothing else in /repo is guarded",
             "baseline_off_cmd": "cd /repo && cargo test --workspace --no-fail-fast --offline",
-            "source_commits": [],
+            "source_commits": ["4f90668"],
             "add_only": True,
         },
         "engines": [
